@@ -200,9 +200,18 @@ def check(desc):
                 if ev is not None:
                     oracles.V(viol, 'C07', 'variant run raises', variant=name, **twin.exc_info(ev))
                     continue
-                d = obs.first_diff(twin.tables_only(oa), twin.tables_only(ov))
-                if d is None and v.get('same_rows', True):
-                    d = obs.first_diff(oa['data'], ov['data'])
+                if v.get('same_rows', True):
+                    d = obs.first_diff(twin.tables_only(oa), twin.tables_only(ov))
+                    if d is None:
+                        d = obs.first_diff(oa['data'], ov['data'])
+                else:
+                    # a type<=1 hit above the limit shares its measurement with a hit below it (hit numbering not in
+                    # height order): the variant must drop that row instead of creating an impossible non-detection,
+                    # so the two chunks hold a different number of rows and the (unstable) time sort may order
+                    # simultaneous hits differently (look-back cut, LOWESS).  Only the conservation and flag clauses
+                    # are decided for this variant.
+                    tags.add('variant_rows_differ_tables_not_compared')
+                    d = None
                 if d is not None:
                     oracles.V(viol, 'C07', 'tables / per-hit data differ when the hits above the limit are ' + name,
                               first_difference=list(d), limit=limit, n_above=n_above)
